@@ -2,3 +2,11 @@
 int nondet_int(void); unsigned long nondet_ulong(void); _Bool nondet_bool(void); unsigned char nondet_uchar(void);
 unsigned int nondet_uint(void); long nondet_long(void);
 static inline void ghost_havoc(void) { g_k = nondet_int(); g_j = nondet_int(); g_u = nondet_ulong(); }
+/* vacuity guard: in the cover build every COVER must be reachable, i.e. its negated assertion must FAIL */
+#ifdef COVER_RUN
+#define COVER(c, name) __CPROVER_assert(!(c), "COVER " name)
+#define COVER_END return
+#else
+#define COVER(c, name) ((void)0)
+#define COVER_END ((void)0)
+#endif
